@@ -40,6 +40,7 @@ import (
 	"github.com/palomachain/paloma/v2/x/skyway/keeper"
 	"github.com/palomachain/paloma/v2/x/skyway/types"
 	valsettypes "github.com/palomachain/paloma/v2/x/valset/types"
+	stakingtypes "github.com/cosmos/cosmos-sdk/x/staking/types"
 )
 
 const (
@@ -140,6 +141,11 @@ type hist struct {
 	// keys a validator had registered and replaced since (per chain): the valset snapshot is rebuilt
 	// only every 50 blocks and still shows them
 	retired, retiredB []int
+
+	deferOracle bool // several model steps describe ONE real operation (an end block): oracle after the last
+	orphaned    int                     // validators taken out of the bonded set by opOrphan
+	roundServed []types.OutgoingTxBatch // what the signing queries served in the current oracle round
+	signer      int
 }
 
 // registeredNow: does validator v have eth address a registered for chain in the LIVE registry.
@@ -307,7 +313,29 @@ func (h *hist) submit(ctx sdk.Context, chain string, subj types.OutgoingTxBatch,
 // oracle: replay every genuine signature, with the subject it was made for, as evidence — in a
 // cache context that is thrown away.  Nobody may get jailed.
 func (h *hist) oracle(after string) {
+	h.roundServed = nil
 	h.queryAll(after)
+	// served-then-replayed, independent of any model: whatever a signing query served just now, an
+	// honest validator signs exactly those bytes with its registered key, and that signature is
+	// submitted as bad-signature evidence on a cache branch.  Accepted-and-jailed = violation.
+	for _, b := range h.roundServed {
+		h.signer = (h.signer + 1) % 5
+		v := h.signer
+		sgb, err := types.NewEthereumSignature(b.BytesToSign, h.keys[h.regKey[v]])
+		if err != nil {
+			h.t.Fatal(err)
+		}
+		cctx, _ := h.ctx.CacheContext()
+		before := h.jailed(cctx)
+		class, _ := h.submit(cctx, chainName, b, hex.EncodeToString(sgb))
+		for _, j := range h.jailed(cctx) {
+			if !has(before, j) {
+				violate(h.run, h.vid("C13:honest-signer-jailed"),
+					fmt.Sprintf("served-then-replayed: a batch query served BytesToSign %x for batch %d, validator %d signed exactly that, the signature submitted as bad-signature evidence was accepted and validator %d jailed", b.BytesToSign, b.BatchNonce, v, j),
+					map[string]any{"kind": "evidence-history", "history": h.replay, "after": after, "served_batch": b, "signer": v, "class": class})
+			}
+		}
+	}
 	for _, g := range h.confs {
 		cctx, _ := h.ctx.CacheContext()
 		before := h.jailed(cctx)
@@ -371,6 +399,7 @@ func (h *hist) served(how string, b types.OutgoingTxBatch, after string) {
 		return
 	}
 	h.servedSeen[key] = true
+	h.roundServed = append(h.roundServed, b)
 	h.steps = append(h.steps, fmt.Sprintf("C13.EServed %d %s", b.BatchNonce, tr.coq()))
 }
 
@@ -423,7 +452,9 @@ func (h *hist) step(term string, class int, rep map[string]any) {
 	rep["class"] = class
 	rep["jailed_after"] = j
 	h.replay = append(h.replay, rep)
-	h.oracle(fmt.Sprint(rep["op"]))
+	if !h.deferOracle {
+		h.oracle(fmt.Sprint(rep["op"]))
+	}
 }
 
 func (h *hist) regList() string {
@@ -580,7 +611,14 @@ func (h *hist) opBuild() {
 	}
 	b, err := h.in.SkywayKeeper.BuildOutgoingTXBatch(h.ctx, chainName, *h.token, uint(1+h.r.Intn(3)))
 	if err != nil || b == nil {
-		h.t.Fatalf("BuildOutgoingTXBatch: %v %v", b, err)
+		if h.orphaned == 0 {
+			h.t.Fatalf("BuildOutgoingTXBatch: %v %v", b, err)
+		}
+		// after relayers left the active set a build may find nobody to assign: nothing may be published
+		h.run.Count("op", "build failed (no relayer)")
+		h.replay = append(h.replay, map[string]any{"op": "build failed", "error": fmt.Sprint(err)})
+		h.oracle("build failed")
+		return
 	}
 	h.nonces = append(h.nonces, b.BatchNonce)
 	h.publish(b.BatchNonce)
@@ -809,9 +847,11 @@ func (h *hist) opEndBlock() {
 	}
 	cc := libcons.New(h.in.ValsetKeeper.GetCurrentSnapshot, h.in.Marshaler)
 	skyway.EndBlocker(h.ctx, h.in.SkywayKeeper, cc)
+	h.republish() // whatever the end blocker left as BytesToSign is published
 	h.run.Count("op", how)
 	h.replay = append(h.replay, map[string]any{"op": how})
 	did := false
+	h.deferOracle = true
 	for _, n := range live {
 		b := h.stored(n)
 		if b != nil && b.GasEstimate != before[n] {
@@ -828,10 +868,11 @@ func (h *hist) opEndBlock() {
 			did = true
 		}
 	}
+	h.deferOracle = false
 	if !did {
 		h.run.Count("endblock-effect", "nothing")
-		h.oracle(how)
 	}
+	h.oracle(how)
 }
 
 // opGenesis: the chain is restarted from an exported genesis, as far as the skyway module is
@@ -893,6 +934,60 @@ func (h *hist) opStaleActivate() {
 	h.republish()
 	h.run.Count("op", "stale activation")
 	h.step(fmt.Sprintf("OStaleActivate 1 %d", h.tidID(id)), rOk, map[string]any{"op": "stale activation", "version": ver, "unique_id": id})
+}
+
+// opOrphan: the relayer an open batch is assigned to leaves the active set (it was jailed by an
+// earlier evidence message, or it is taken out of the bonded set here), the valset snapshot is
+// rebuilt without it, and blocks end.  On the code as it is nothing happens to the batch.
+func (h *hist) opOrphan() {
+	live := h.liveNonces()
+	if len(live) == 0 {
+		return
+	}
+	b := h.stored(live[h.r.Intn(len(live))])
+	vi := -1
+	for i := 0; i < 5; i++ {
+		if keeper.ValAddrs[i].String() == b.Assignee {
+			vi = i
+		}
+	}
+	if vi < 0 {
+		return
+	}
+	active := 0
+	for i := 0; i < 5; i++ {
+		val, err := h.in.StakingKeeper.GetValidator(h.ctx, keeper.ValAddrs[i])
+		if err == nil && val.IsBonded() && !val.IsJailed() {
+			active++
+		}
+	}
+	val, err := h.in.StakingKeeper.GetValidator(h.ctx, keeper.ValAddrs[vi])
+	if err != nil {
+		h.t.Fatal(err)
+	}
+	how := "relayer already jailed"
+	if val.IsBonded() && !val.IsJailed() {
+		if active <= 2 {
+			return
+		}
+		val.Status = stakingtypes.Unbonding
+		if err := h.in.StakingKeeper.SetValidator(h.ctx, val); err != nil {
+			h.t.Fatal(err)
+		}
+		how = "relayer unbonding"
+	} else if active < 1 {
+		return
+	}
+	h.orphaned++
+	if _, err := h.in.ValsetKeeper.TriggerSnapshotBuild(h.ctx); err != nil {
+		h.run.Count("orphan-snapshot", "build failed")
+	}
+	h.in.MetrixKeeper.UpdateUptime(h.ctx)
+	h.run.Count("op", "orphan: "+how)
+	h.replay = append(h.replay, map[string]any{"op": "relayer of an open batch leaves the active set, snapshot rebuilt", "nonce": b.BatchNonce, "validator": vi, "how": how})
+	for i := 0; i < 1+h.r.Intn(2); i++ {
+		h.opEndBlock()
+	}
 }
 
 func (h *hist) opSetTid() {
@@ -1245,6 +1340,8 @@ func runEvidence(t *testing.T, run *emit.Run, n int) {
 				h.opGenesis()
 			case p < 77:
 				h.opStaleActivate()
+			case p < 81:
+				h.opOrphan()
 			default:
 				h.opEvidence()
 			}
